@@ -568,6 +568,25 @@ def run_C14(res):
             res.fail("no bestmove within 6 s for a search on a nearly expired clock", fen=f, go=args)
         elif best - budget > 0.25:
             res.fail("search on a nearly expired clock overran the mover's whole clock by more than 250 ms", fen=f, go=args, seconds=round(best, 3))
+    # increments far larger than the clock: whatever the time management does with them, the answer must come within the mover's own
+    # remaining clock (+ 250 ms) — the increment is only credited after the move
+    for args, clock in (("wtime 600 btime 600 winc 3000 binc 3000 movestogo 1", 0.6), ("wtime 500 btime 500 winc 2000 binc 2000 movestogo 2", 0.5),
+                        ("wtime 300 btime 300 winc 5000 binc 5000", 0.3)):
+        f = fens[nlow % len(fens)] if fens else None
+        if f is None:
+            break
+        best = None
+        for _attempt in range(3):
+            rc, out, err, to, secs = vlib.run_engine(["isready", "position fen " + f, "go " + args, "quit"], "release", timeout=10)
+            best = secs if best is None else min(best, secs)
+            if to or "bestmove" not in out or secs - clock <= 0.25:
+                break
+        res.evaluations += 1
+        nlow += 1
+        if to or "bestmove" not in out:
+            res.fail("no bestmove within 10 s for a clock-limited search with a large increment", fen=f, go=args)
+        elif best - clock > 0.25:
+            res.fail("a search with a large increment overran the mover's own remaining clock by more than 250 ms", fen=f, go=args, seconds=round(best, 3))
     res.count("process_level_low_clock_runs", nlow)
     # the deepest recursion the depth cap allows, through the real process (stack depth is outside every model): a blocked pawn ending is
     # searched to depth 120 in about a second; all 120 iterations must be reported and a move played
@@ -979,6 +998,10 @@ def run_C19(res):
         for a, b in dict.fromkeys(wins):
             reqs.append(f"qs {p} {a} {b}")
             meta.append((p, a, b, v))
+        # the value does not depend on the ply the node sits at (only seldepth does): the same node entered deep in a line
+        ply = rnd.choice([1, 7, 63, 100, 126, 127, 128, 129, 200, 1000])
+        reqs.append(f"qs {p} -10000000 10000000 {ply}")
+        meta.append((p, -10000000, 10000000, v))
     impl = run_hx_par(reqs)
     model = run_driver_par(reqs)
     compare(res, "qsearch", reqs, impl, model)
